@@ -56,7 +56,9 @@ pub struct Fail {
     pub note: String,
 }
 
-const KEEP_FAILS: usize = 6;
+const KEEP_FAILS: usize = 8; // replay files written per run
+const KEEP_PER_CLASS: usize = 2; // failing cases retained per failure class (class = start of `note`)
+const KEEP_CLASSES_FAIL: usize = 16;
 const KEEP_SAMPLES: usize = 3;
 const KEEP_CLASSES: usize = 4000;
 
@@ -113,10 +115,42 @@ impl Acc {
         self.fail_count += 1;
         let f = Fail { idx, case, expected: expected.into(), observed: observed.into(), note: note.into() };
         let pos = self.fails.iter().position(|x| x.idx > idx).unwrap_or(self.fails.len());
-        if pos < KEEP_FAILS {
-            self.fails.insert(pos, f);
-            self.fails.truncate(KEEP_FAILS);
+        self.fails.insert(pos, f);
+        Self::prune(&mut self.fails);
+    }
+    fn class_of(note: &str) -> String {
+        note.chars().take(40).collect()
+    }
+    /// Keep the smallest cases of every failure class (so that one frequent class cannot hide the
+    /// others), classes ordered by their first occurrence; `fails` stays sorted by idx.
+    fn prune(fails: &mut Vec<Fail>) {
+        if fails.len() <= KEEP_PER_CLASS {
+            return;
         }
+        let mut seen: Vec<(String, usize)> = vec![];
+        let mut keep = vec![false; fails.len()];
+        for (i, f) in fails.iter().enumerate() {
+            let c = Self::class_of(&f.note);
+            match seen.iter_mut().find(|(k, _)| *k == c) {
+                Some((_, n)) => {
+                    if *n < KEEP_PER_CLASS {
+                        *n += 1;
+                        keep[i] = true;
+                    }
+                }
+                None => {
+                    if seen.len() < KEEP_CLASSES_FAIL {
+                        seen.push((c, 1));
+                        keep[i] = true;
+                    }
+                }
+            }
+        }
+        let mut i = 0;
+        fails.retain(|_| {
+            i += 1;
+            keep[i - 1]
+        });
     }
     /// The case failed, but a listed known finding's predicate matches the case and the observed
     /// behaviour equals that finding's adjusted expectation. Whether the finding is really listed in
@@ -151,7 +185,7 @@ impl Acc {
         self.fail_count += o.fail_count;
         self.fails.extend(o.fails);
         self.fails.sort_by_key(|f| f.idx);
-        self.fails.truncate(KEEP_FAILS);
+        Self::prune(&mut self.fails);
         for (k, (n, i, w)) in o.known {
             match self.known.get_mut(&k) {
                 Some(e) => {
@@ -399,8 +433,25 @@ impl Ctx {
             let p = write_replay(fam, w, "finding is not listed in known_findings.json", "", &format!("case class {fid}"), 0, &self.id);
             lines.push(format!("VIOLATION property={} replay={}", self.id, p));
         }
+        // one witness per (family, failure class) first, then the remaining smallest ones
         fails.sort_by_key(|f| f.1.idx);
-        for (fam, f) in fails.iter().take(KEEP_FAILS) {
+        let mut chosen: Vec<usize> = vec![];
+        let mut seen_classes: Vec<(String, String)> = vec![];
+        for (i, (fam, f)) in fails.iter().enumerate() {
+            let key = (fam.clone(), Acc::class_of(&f.note));
+            if !seen_classes.contains(&key) {
+                seen_classes.push(key);
+                chosen.push(i);
+            }
+        }
+        for i in 0..fails.len() {
+            if !chosen.contains(&i) {
+                chosen.push(i);
+            }
+        }
+        chosen.truncate(KEEP_FAILS);
+        let fails: Vec<(String, Fail)> = chosen.into_iter().map(|i| fails[i].clone()).collect();
+        for (fam, f) in fails.iter() {
             let p = write_replay(fam, &f.case, &f.expected, &f.observed, &f.note, f.idx, &self.id);
             lines.push(format!("VIOLATION property={} replay={}", self.id, p));
             eprintln!("  failing case [{}#{}]: {}\n    expected: {}\n    observed: {}\n    {}", fam, f.idx, compact(&f.case, 600), clip(&f.expected, 600), clip(&f.observed, 600), clip(&f.note, 400));
